@@ -559,6 +559,8 @@ def _lemma_p(ns_q, ns_t, facets=None):
     for n in ns_q + ns_t:
         for crlf in (False, True):
             for facet in facets or genframes.P_FACETS:
+                if facet == "err_data" and n > 8:
+                    continue  # copying the offending text into the error did not fit the memory cap beyond 8 pairs
                 q = n in ns_q and (facet in ("outcome", "ok_fields") or n <= 1)
                 hs.append(
                     H(
